@@ -101,10 +101,17 @@ def refFrame (rows : List Row) : Option (Option Str) :=
       | _ => Option.none
     else some acc) Option.none
 
+/-- the text after the first `.parse_` of a character list -/
+def afterParse : Str → Option Str
+  | [] => Option.none
+  | c :: rest => if startsWith ".parse_".toList (c :: rest) then some ((c :: rest).drop 7) else afterParse rest
+
+/-- `SinexSiteParser.parse_site_id` ↦ `site_id`: the name of the block parser method (from the translator)
+without class and `parse_` -/
 def entryName (qual : String) : String :=
-  match qual.splitOn ".parse_" with
-  | [_, n] => n
-  | _ => qual
+  match afterParse qual.toList with
+  | some n => asString n
+  | Option.none => qual
 
 /-- one block of `SinexSiteParser` applied to (site table, reference frame of the FILE/COMMENT block) -/
 def siteStep (look : String → Option RawBlock) (st : SiteTable × Option Str) (b : BlockDef) :
